@@ -20,7 +20,8 @@ RULE = (
     "(guarded so a rule does not re-match its own output), operand swap of Add/Mul, Transpose(Transpose(x,p1),p2)->Transpose(x,p2.p1), "
     "Mul(x,1)/Add(x,0)->Identity(x), Neg(Neg(x))->Identity(x), replacement introducing an initializer (fresh name per application / the "
     "same name at every application / name of an existing initializer), replacement in a custom domain backed by a model-local function, remove_nodes=False, as_function=True; "
-    "host strata = {flat main graph, +If/Loop bodies to depth 2 using outer-scope values, +model-local functions} x k in {0,1,2,3+} planted "
+    "host strata = {flat main graph, +If/Loop bodies to depth 2 using outer-scope values, +model-local functions, instances ONLY inside "
+    "If/Loop bodies with enclosing values literally named val_0/val_1 that the bodies consume} x k in {0,1,2,3+} planted "
     "instances (chained / overlapping, results used as graph outputs and inside subgraphs), nodes with metadata_props; every host passes "
     "onnx.checker(full) and runs on ORT before use.  non-trivial = the rule applied >=1 time; distinct = (rule kind, where the applications "
     "happened, #applications capped at 3)"
@@ -48,13 +49,13 @@ ANCHORS = [
 TIMEOUT = 600.0
 PER_SPEC = 10
 
-KINDS = ["reneg", "resub", "swapadd", "swapmul", "tt", "mul1", "add0", "negneg", "resplit", "init_fresh", "init_repeat", "init_clash",
+KINDS = ["reneg", "resub", "resub2", "swapadd", "swapmul", "tt", "mul1", "add0", "negneg", "resplit", "init_fresh", "init_repeat", "init_clash",
          "custom", "keep", "asfn"]
 # kind -> what the host generator plants
-PLANT = {"reneg": "neg", "resub": "sub", "swapadd": "add", "swapmul": "mul", "tt": "tt", "mul1": "mul1", "add0": "add0",
+PLANT = {"reneg": "neg", "resub": "sub", "resub2": "sub", "swapadd": "add", "swapmul": "mul", "tt": "tt", "mul1": "mul1", "add0": "add0",
          "negneg": "negneg", "resplit": "split", "init_fresh": "sub", "init_repeat": "sub", "init_clash": "sub", "custom": "relu",
          "keep": "neg", "asfn": "subrelu"}
-STRATA = ["flat", "cf", "fn", "cf+fn"]
+STRATA = ["flat", "cf", "fn", "cf+fn", "cfonly"]   # cfonly: instances only inside If/Loop bodies, outer values named val_0/val_1
 CLASH = "c07_zero"
 
 
@@ -62,7 +63,8 @@ def thresholds(tier):
     n = 400 if tier == "quick" else 12000
     return {"pairs_checked": n // 5, "applications": n // 3, "try_rewrite_calls": n * 2, "replace_calls": n // 3, "ort_compared": n // 4,
             "app_in_subgraph": n // 80, "app_in_function": n // 80, "app_output_is_graph_output": n // 40, "app_output_used_in_nested_body": n // 100,
-            "app_on_node_created_by_earlier_app": n // 200, "multi_application": n // 20, "no_application_no_instance": n // 80,
+            "app_on_node_created_by_earlier_app": n // 200, "count_checked": n // 5, "pairs_applied_in_subgraphs_only": n // 40,
+            "subgraph_only_multi_node_replacement": n // 200, "multi_application": n // 20, "no_application_no_instance": n // 80,
             "distinct_nontrivial": 15,
             "anchor:onnxscript.rewriter._rewrite_rule:_copy_for_function": n // 200,
             "anchor:onnxscript.rewriter._rewrite_rule:_update_opset_imports": n // 3}
@@ -92,7 +94,7 @@ def pattern_ast(kind):
     N, V = c06_gen.N, c06_gen.V
     if kind in ("reneg", "keep"):
         return {"nodes": [N("Neg", [V("x")])], "outs": [["o", 0, 0]]}
-    if kind in ("resub", "init_fresh", "init_repeat", "init_clash"):
+    if kind in ("resub", "resub2", "init_fresh", "init_repeat", "init_clash"):
         return {"nodes": [N("Sub", [V("x"), V("y")])], "outs": [["o", 0, 0]]}
     if kind == "swapadd":
         return {"nodes": [N("Add", [V("x"), V("y")])], "outs": [["o", 0, 0]]}
@@ -144,6 +146,8 @@ def make_rule(kind):
             kw["remove_nodes"] = False
     elif kind == "resub":
         rep, cond = (lambda op, x, y, **_: mark(op.Sub(x, y))), guard
+    elif kind == "resub2":   # two new nodes: the intermediate gets an automatic name (val_0, ...)
+        rep, cond = (lambda op, x, y, **_: mark(op.Sub(op.Identity(x), op.Identity(y)))), guard
     elif kind == "swapadd":
         rep, cond = (lambda op, x, y, **_: mark(op.Add(y, x))), guard
     elif kind == "swapmul":
@@ -200,6 +204,17 @@ def worker_init():
                         "old_out": list(r.match.outputs), "new_out": list(r.new_outputs), "new_inits": list(r.new_initializers)})
 
     probes.wrap_method(_rewrite_rule.RewriteRule, "try_rewrite", after=after_try)
+
+    def after_apply(tok, r, self, model, **k):
+        LOG.append({"ev": "count", "value": r})
+
+    probes.wrap_method(_rewrite_rule.RewriteRuleSet, "apply_to_model", after=after_apply)
+    import onnxscript.rewriter as _rw
+
+    def after_pass(tok, r, self, model):
+        LOG.append({"ev": "pass", "modified": bool(r.modified)})
+
+    probes.wrap_method(_rw.RewritePass, "call", after=after_pass)
 
     def make(func):
         def replace_nodes_and_values(graph_or_function, insertion_point, old_nodes, new_nodes, old_values, new_values):
@@ -445,7 +460,7 @@ def run_pair(p, seed, ev, viol):
     for _ in range(6):
         try:
             built = c07_gen.make_host(rng, PLANT[kind], n_nodes=rng.randint(2, 7), k_plants=(k if k < 3 else rng.randint(3, 5)),
-                                      subgraphs="cf" in st, functions="fn" in st,
+                                      subgraphs="cf" in st, functions="fn" in st, nested_only=(st == "cfonly"),
                                       clash_name=(CLASH if kind == "init_clash" else None), custom_fn=(kind == "custom"))
         except Exception as e:  # a generator bug must not be blamed on the repository
             hit("generator_error")
@@ -483,6 +498,11 @@ def run_pair(p, seed, ev, viol):
     hit("hosts_ok")
     rule, P, created = make_rule(kind)
     hosts = c06_hosts(M)
+    _ORIG_NAMES.clear()
+    for _, G in hosts:
+        _ORIG_NAMES.update(G["inputs"])
+        for n in G["nodes"]:
+            _ORIG_NAMES.update(n["out"])
     removable = kind != "keep"
     s_any, l_any, where_spec = instance_exists(P, hosts, removable, skip_functions=kind.startswith("init"))
     if kind.startswith("init"):
@@ -517,6 +537,22 @@ def run_pair(p, seed, ev, viol):
     app_where = sorted({snap["graphs"].get(id(a["container"]), "new") for a in apps})
     for w in app_where:
         hit({"main": "app_in_main", "sub": "app_in_subgraph", "function": "app_in_function"}.get(w, "app_elsewhere"))
+    # ---- what the rewriter reports = what it did (callers, and apply_to_model itself, gate clean-up passes on this count)
+    where_key = "subgraph_only" if app_where == ["sub"] else ("none" if not apps else "mixed")
+    for r in LOG:
+        if r["ev"] == "count":
+            hit("count_checked")
+            if r["value"] != len(apps):
+                v(f"kind=count_mismatch;where={where_key}", f"apply_to_model returned {r['value']} but the monitor saw {len(apps)} application(s) "
+                  f"(replace_nodes_and_values calls) in {app_where}", model=M_bytes.hex()[:40000])
+        elif r["ev"] == "pass":
+            if r["modified"] != bool(apps):
+                v(f"kind=count_mismatch;where={where_key};flag=modified", f"RewritePass reported modified={r['modified']} but the monitor saw {len(apps)} "
+                  f"application(s) in {app_where}", model=M_bytes.hex()[:40000])
+    if app_where == ["sub"]:
+        hit("pairs_applied_in_subgraphs_only")
+        if sum(1 for a in apps if len(a["new_nodes"]) >= 2):
+            hit("subgraph_only_multi_node_replacement")
     # ---- applications >= 1 iff an instance exists
     if s_any and not apps:
         v("kind=not_applied", f"match_spec finds a strict {'removable ' if removable else ''}instance in {sorted(where_spec)} but the rule was applied 0 times",
@@ -685,6 +721,9 @@ def run_pair(p, seed, ev, viol):
                        "host_nodes": len(M.graph.node), "result_nodes": len(M2.graph.node)}}
 
 
+_ORIG_NAMES: set = set()
+
+
 def _invalid_mech(msg, kind):
     m = msg.lower()
     if any(t.get("init_clash") for t in LOG if t["ev"] == "try"):
@@ -693,6 +732,12 @@ def _invalid_mech(msg, kind):
     if "is not a graph input, initializer" in m or "not defined before use" in m or "not output of any previous nodes" in m:
         return "undefined_input"
     if "used as output names multiple times" in m or "redefines an outer-scope name" in m or "defined twice" in m:
+        import re
+
+        q = re.findall(r"'([^']+)'", msg)
+        if q and q[0] in _ORIG_NAMES:
+            # the clashing name belongs to a value of the original model: a value created by the replacement shadows it
+            return "new_value_shadows_existing_name"
         return "value_name_reused_across_scopes"
     if "no opset registered for domain" in m and kind == "asfn":
         return "extracted_function_without_opset_import"
